@@ -151,6 +151,13 @@ func init() {
 		rtPkg + ".IteU64": func(m *Machine, _ *Thread, _ *Frame, a []Value, _ ssa.Value) Value {
 			return Ite(a[0].(*Term), a[1].(*Term), a[2].(*Term))
 		},
+		rtPkg + ".LazySigs": func(m *Machine, _ *Thread, _ *Frame, a []Value, _ ssa.Value) Value {
+			fv, ok := a[0].(*FuncV)
+			if !ok || fv == nil {
+				panic(m.unsupported("LazySigs needs a function"))
+			}
+			return &LazyV{Fn: fv}
+		},
 		rtPkg + ".SQLParse": func(m *Machine, _ *Thread, _ *Frame, a []Value, _ ssa.Value) Value {
 			q, ok := m.litValue(a[0].(*Term))
 			st := sqlStmt{}
@@ -174,6 +181,7 @@ func init() {
 			if st.whereVal {
 				wk = 2
 			}
+			wk += 4 * st.whereNul
 			return TupleV{BVC(64, uint64(st.op)), BVC(64, uint64(st.conflict)), mkInts(st.cols), BVC(64, uint64(wk))}
 		},
 		rtPkg + ".Last": func(m *Machine, _ *Thread, _ *Frame, a []Value, _ ssa.Value) Value {
@@ -721,6 +729,7 @@ type sqlStmt struct {
 	cols     []int // select: result columns; insert: target columns; update: SET columns (1 logID, 2 chkpt, 3 range)
 	whereKey bool  // ... WHERE logID = ?
 	whereVal bool  // ... WHERE logID = ? AND chkpt = ?
+	whereNul int   // ... [AND] chkpt IS NOT NULL (1) / chkpt IS NULL (2)
 }
 
 func sqlCol(name string) int {
@@ -758,20 +767,36 @@ func parseSQL(q string) sqlStmt {
 		return true
 	}
 	whereVal := false
-	where := func() (bool, bool) { // (hasWhere, ok)
+	whereNull := 0 // 1: chkpt IS NOT NULL, 2: chkpt IS NULL
+	where := func() (bool, bool) { // (hasKey, ok): a conjunction of logID = ?, chkpt = ?, chkpt IS [NOT] NULL
 		if len(t) == 0 {
 			return false, true
 		}
-		if eat("where", "logid", "=", "?") {
-			if len(t) == 0 {
-				return true, true
-			}
-			if eat("and", "chkpt", "=", "?") && len(t) == 0 {
+		if !eat("where") {
+			return false, false
+		}
+		key := false
+		for {
+			switch {
+			case !key && !whereVal && eat("logid", "=", "?"):
+				// (logID = ? must come before chkpt = ?: the model binds arguments in that order)
+				key = true
+			case key && !whereVal && whereNull == 0 && eat("chkpt", "=", "?"):
 				whereVal = true
-				return true, true
+			case whereNull == 0 && !whereVal && eat("chkpt", "is", "not", "null"):
+				whereNull = 1
+			case whereNull == 0 && !whereVal && eat("chkpt", "is", "null"):
+				whereNull = 2
+			default:
+				return false, false
+			}
+			if len(t) == 0 {
+				return key, true
+			}
+			if !eat("and") {
+				return false, false
 			}
 		}
-		return false, false
 	}
 	switch {
 	case eat("create", "table", "if", "not", "exists", "chkpts", "("):
@@ -795,7 +820,10 @@ func parseSQL(q string) sqlStmt {
 		if !ok {
 			return bad
 		}
-		st.whereKey = w
+		st.whereKey, st.whereNul = w, whereNull
+		if whereVal {
+			return bad
+		}
 		return st
 	case eat("insert") || eat("replace"):
 		st := sqlStmt{op: 3}
@@ -857,14 +885,14 @@ func parseSQL(q string) sqlStmt {
 		if !ok || len(st.cols) == 0 {
 			return bad
 		}
-		st.whereKey, st.whereVal = w, whereVal
+		st.whereKey, st.whereVal, st.whereNul = w, whereVal, whereNull
 		return st
 	case eat("delete", "from", "chkpts"):
 		w, ok := where()
 		if !ok {
 			return bad
 		}
-		return sqlStmt{op: 5, whereKey: w, whereVal: whereVal}
+		return sqlStmt{op: 5, whereKey: w, whereVal: whereVal, whereNul: whereNull}
 	}
 	return bad
 }
